@@ -371,7 +371,11 @@ func fixBackendTLSPolicy(spec map[string]any) {
 	if len(asList(v["caCertificateRefs"])) > 0 {
 		delete(v, "wellKnownCACertificates")
 	} else {
-		delete(v, "caCertificateRefs")
+		// an EMPTY caCertificateRefs list next to wellKnownCACertificates is admissible: both CEL rules only
+		// look at `size(self.caCertificateRefs) > 0`; keep it when the generator drew both
+		if _, drewBoth := v["wellKnownCACertificates"]; !drewBoth || v["caCertificateRefs"] == nil {
+			delete(v, "caCertificateRefs")
+		}
 		if _, ok := v["wellKnownCACertificates"]; !ok {
 			v["wellKnownCACertificates"] = "System"
 		}
